@@ -6,11 +6,14 @@
 mod agentapi;
 mod choices;
 mod core;
+mod faults;
 mod gen;
 mod model_tx;
+mod pipeline;
 mod plan;
 mod refcodec;
 mod sc_agent;
+mod sc_wire;
 
 use crate::choices::Choices;
 use crate::core::*;
